@@ -222,16 +222,36 @@ fn do_write(w: i64, loc: &Loc, rows: &[Row], shards: Option<usize>) -> Result<Ve
     }
 }
 
-fn outcome<T>(f: impl FnOnce() -> Result<Vec<Row>, T>) -> Value {
+enum Ro {
+    Ok(Vec<Row>),
+    Err,
+    Panic,
+    Bad,
+}
+fn outcome<T>(f: impl FnOnce() -> Result<Vec<Row>, T>) -> Ro {
     match catch_unwind(AssertUnwindSafe(f)) {
-        Ok(Ok(rows)) => json!(["ok", recs_json(&rows)]),
-        Ok(Err(_)) => json!(["err"]),
-        Err(_) => json!(["panic"]),
+        Ok(Ok(rows)) => Ro::Ok(rows),
+        Ok(Err(_)) => Ro::Err,
+        Err(_) => Ro::Panic,
+    }
+}
+fn ro_json(ro: &Ro) -> Value {
+    match ro {
+        Ro::Ok(rows) => json!(["ok", recs_json(rows)]),
+        Ro::Err => json!(["err"]),
+        Ro::Panic => json!(["panic"]),
+        Ro::Bad => json!(["bad-reader"]),
     }
 }
 
 /// Run reader `r`. `hdr`: CSV `has_headers`; for the JSONL range reader "skip line 0".
 fn do_read(r: i64, loc: &Loc, hdr: bool) -> Value {
+    ro_json(&read_rows(r, loc, hdr, 2))
+}
+
+/// `lps`: lines per shard of the range / streaming readers (every shard re-reads the file from
+/// the start, so big payloads use a few big shards).
+fn read_rows(r: i64, loc: &Loc, hdr: bool, lps: usize) -> Ro {
     match loc {
         Loc::Cloud(st, key) => match r {
             R_CLOUD_JSONL => {
@@ -240,14 +260,14 @@ fn do_read(r: i64, loc: &Loc, hdr: bool) -> Value {
             R_CLOUD_JSONL_GLOB => {
                 outcome(|| read_cloud_jsonl_glob::<Rec, _>(*st, BUCKET, key).map(from_recs))
             }
-            _ => json!(["bad-reader"]),
+            _ => Ro::Bad,
         },
         Loc::File(path) => {
             let dir_glob = format!("{}/*", path.parent().unwrap().display());
             match r {
                 R_JSONL_VEC => outcome(|| read_jsonl_vec::<Rec>(path).map(from_recs)),
                 R_JSONL_RANGE => outcome(|| -> anyhow::Result<Vec<Row>> {
-                    let sh = build_jsonl_shards(path, 2)?;
+                    let sh = build_jsonl_shards(path, lps)?;
                     let mut out = Vec::new();
                     if hdr {
                         out.extend(read_jsonl_range::<Rec>(&sh, 1, sh.total_lines.max(1))?);
@@ -268,17 +288,17 @@ fn do_read(r: i64, loc: &Loc, hdr: bool) -> Value {
                 }),
                 R_JSONL_STREAM_SEQ => outcome(|| -> anyhow::Result<Vec<Row>> {
                     let p = Pipeline::default();
-                    Ok(from_recs(read_jsonl_streaming::<Rec>(&p, path, 2)?.collect_seq()?))
+                    Ok(from_recs(read_jsonl_streaming::<Rec>(&p, path, lps)?.collect_seq()?))
                 }),
                 R_JSONL_STREAM_PAR => outcome(|| -> anyhow::Result<Vec<Row>> {
                     let p = Pipeline::default();
                     Ok(from_recs(
-                        read_jsonl_streaming::<Rec>(&p, path, 2)?.collect_par(Some(2), None)?,
+                        read_jsonl_streaming::<Rec>(&p, path, lps)?.collect_par(Some(2), None)?,
                     ))
                 }),
                 R_CSV_VEC => outcome(|| read_csv_vec::<Row>(path, hdr)),
                 R_CSV_RANGE => outcome(|| -> anyhow::Result<Vec<Row>> {
-                    let sh = build_csv_shards(path, hdr, 2)?;
+                    let sh = build_csv_shards(path, hdr, lps)?;
                     let mut out = Vec::new();
                     for &(s, e) in &sh.ranges {
                         out.extend(read_csv_range::<Row>(&sh, s, e)?);
@@ -295,14 +315,14 @@ fn do_read(r: i64, loc: &Loc, hdr: bool) -> Value {
                 }),
                 R_CSV_STREAM_SEQ => outcome(|| -> anyhow::Result<Vec<Row>> {
                     let p = Pipeline::default();
-                    read_csv_streaming::<Row>(&p, path, hdr, 2)?.collect_seq()
+                    read_csv_streaming::<Row>(&p, path, hdr, lps)?.collect_seq()
                 }),
                 R_CSV_STREAM_PAR => outcome(|| -> anyhow::Result<Vec<Row>> {
                     let p = Pipeline::default();
-                    read_csv_streaming::<Row>(&p, path, hdr, 2)?.collect_par(Some(2), None)
+                    read_csv_streaming::<Row>(&p, path, hdr, lps)?.collect_par(Some(2), None)
                 }),
                 R_PARQUET_VEC => outcome(|| read_parquet_vec::<Rec>(path).map(from_recs)),
-                _ => json!(["bad-reader"]),
+                _ => Ro::Bad,
             }
         }
     }
@@ -378,6 +398,227 @@ fn ref_parse(r: i64, hdr: bool, content: &[u8]) -> Option<Value> {
         }
         Fmt::Parquet => None,
     }
+}
+
+
+// ---------- big payloads described by generator parameters (kinds "big", "rewrite") ----------
+// gen = [mode, n, klen, seed, k0len]: n records (key_i, i); key_0 has k0len characters, every
+// other key klen; character j of key i:
+//   mode 0: 'x'                    (records differ only in v: extremely compressible)
+//   mode 1: ALPHA[i mod 4]         (four distinct keys)
+//   mode 2: ALPHA[top 6 bits of a 63-bit LCG seeded by (seed, i)]   (poorly compressible)
+// The same definition is in Corr/C10.v (pl_keychar); the digest of a record list likewise.
+const M63: u64 = (1u64 << 63) - 1;
+const LCG_A: u64 = 6364136223846793005;
+const LCG_C: u64 = 1442695040888963407;
+const ALPHA: &[u8; 64] = b"ABCDEFGHIJKLMNOPQRSTUVWXYZabcdefghijklmnopqrstuvwxyz0123456789-_";
+#[derive(Clone, Copy, Debug)]
+struct Gen {
+    mode: i64,
+    n: usize,
+    klen: usize,
+    seed: u64,
+    k0len: usize,
+}
+impl Gen {
+    fn json(&self) -> Value {
+        json!([self.mode, self.n, self.klen, self.seed, self.k0len])
+    }
+    fn of(v: &Value) -> Option<Gen> {
+        let a = v.as_array()?;
+        if a.len() != 5 {
+            return None;
+        }
+        let g = Gen {
+            mode: a[0].as_i64()?,
+            n: a[1].as_u64()? as usize,
+            klen: a[2].as_u64()? as usize,
+            seed: a[3].as_u64()?,
+            k0len: a[4].as_u64()? as usize,
+        };
+        let total = (g.n as u128) * (g.klen as u128 + 24) + g.k0len as u128;
+        if !(0..=2).contains(&g.mode) || g.seed > M63 || total > (1 << 25) {
+            return None;
+        }
+        Some(g)
+    }
+    fn key(&self, i: usize) -> String {
+        let len = if i == 0 { self.k0len } else { self.klen };
+        let mut k = Vec::with_capacity(len);
+        match self.mode {
+            0 => k.resize(len, b'x'),
+            1 => k.resize(len, ALPHA[i % 4]),
+            _ => {
+                let mut x = (self.seed
+                    .wrapping_add((i as u64 + 1).wrapping_mul(2654435761)))
+                    & M63;
+                for _ in 0..len {
+                    x = (x.wrapping_mul(LCG_A).wrapping_add(LCG_C)) & M63;
+                    k.push(ALPHA[(x >> 57) as usize]);
+                }
+            }
+        }
+        String::from_utf8(k).unwrap()
+    }
+    fn rows(&self) -> Vec<Row> {
+        (0..self.n).map(|i| (self.key(i), i as i64)).collect()
+    }
+    /// length of the JSONL / CSV text of the payload (harness side, used by the generator only)
+    fn text_len(&self, csv: bool) -> usize {
+        let over = if csv { 2 } else { 14 };
+        (0..self.n)
+            .map(|i| over + (if i == 0 { self.k0len } else { self.klen }) + i.to_string().len())
+            .sum()
+    }
+}
+fn digest(rows: &[Row]) -> u64 {
+    let mut d = 0u64;
+    for (k, v) in rows {
+        let mut h = 0u64;
+        for &b in k.as_bytes() {
+            h = (h.wrapping_mul(131).wrapping_add(b as u64)) & M63;
+        }
+        h = (h.wrapping_mul(1000003).wrapping_add(*v as u64)) & M63;
+        d = (d.wrapping_mul(LCG_A).wrapping_add(h).wrapping_add(1)) & M63;
+    }
+    d
+}
+fn ro_digest(ro: &Ro) -> Value {
+    match ro {
+        Ro::Ok(rows) => json!(["ok", rows.len(), digest(rows) as i64 & ((1i64 << 61) - 1)]),
+        Ro::Err => json!(["err"]),
+        Ro::Panic => json!(["panic"]),
+        Ro::Bad => json!(["bad-reader"]),
+    }
+}
+const PLAIN_NAME: &str = "plain";
+const PLAIN_KEY: &str = "zz/plain";
+
+/// kind "big": one payload, many (writer, reader, name) entries, run in parallel.
+///  phase 1: every distinct (w, wname, shards) and the same writer's neutral output is written
+///           once with the real writer; phase 2: every entry reads with its reader - in place
+///           when it is the first entry of that write under the same name, else from a copy of
+///           the stored bytes under `rname` (std::fs::write / put_object).
+fn run_big(g: &Gen, entries: &[Value]) -> Value {
+    use rayon::prelude::*;
+    struct Ent {
+        w: i64,
+        r: i64,
+        wname: String,
+        rname: String,
+        shards: Option<usize>,
+    }
+    let mut ents = Vec::new();
+    for e in entries {
+        let Some(a) = e.as_array() else { return json!(["invalid"]) };
+        if a.len() != 5 {
+            return json!(["invalid"]);
+        }
+        let (Some(w), Some(r), Some(wn), Some(rn)) =
+            (a[0].as_i64(), a[1].as_i64(), a[2].as_str(), a[3].as_str())
+        else {
+            return json!(["invalid"]);
+        };
+        if !(0..=10).contains(&w) || !(0..=14).contains(&r) || wfmt(w) != rfmt(r)
+            || wn.is_empty() || rn.is_empty()
+            || (wfmt(w) != Fmt::Cloud && (wn.contains('/') || rn.contains('/')))
+            || !(a[4].is_null() || a[4].is_u64())
+        {
+            return json!(["invalid"]);
+        }
+        ents.push(Ent { w, r, wname: wn.to_string(), rname: rn.to_string(), shards: shards_of(&a[4]) });
+    }
+    let rows = g.rows();
+    let cd = CaseDir::new();
+    // distinct writes
+    let mut wkeys: Vec<(i64, String, Option<usize>)> = Vec::new();
+    let mut widx = |k: (i64, String, Option<usize>)| -> usize {
+        if let Some(i) = wkeys.iter().position(|x| *x == k) {
+            i
+        } else {
+            wkeys.push(k);
+            wkeys.len() - 1
+        }
+    };
+    let mut ent_w = Vec::new();
+    let mut ent_p = Vec::new();
+    for e in &ents {
+        ent_w.push(widx((e.w, e.wname.clone(), e.shards)));
+        let pn = if wfmt(e.w) == Fmt::Cloud { PLAIN_KEY } else { PLAIN_NAME };
+        ent_p.push(widx((e.w, pn.to_string(), e.shards)));
+    }
+    let stores: Vec<FakeObjectIO> = wkeys.iter().map(|_| FakeObjectIO::new()).collect();
+    let dirs: Vec<PathBuf> = (0..wkeys.len()).map(|i| cd.sub(&format!("w{i}"))).collect();
+    let written: Vec<Result<Vec<u8>, ()>> = wkeys
+        .par_iter()
+        .enumerate()
+        .map(|(i, (w, name, shards))| {
+            catch_unwind(AssertUnwindSafe(|| {
+                if wfmt(*w) == Fmt::Cloud {
+                    do_write(*w, &Loc::Cloud(&stores[i], name), &rows, *shards)
+                } else {
+                    do_write(*w, &Loc::File(&dirs[i].join(name)), &rows, *shards)
+                }
+            }))
+            .unwrap_or(Err(()))
+        })
+        .collect();
+    // the first entry of a write that reads under the name it was written to reads in place
+    let mut owner: Vec<Option<usize>> = vec![None; wkeys.len()];
+    for (ei, e) in ents.iter().enumerate() {
+        if e.rname == e.wname && owner[ent_w[ei]].is_none() {
+            owner[ent_w[ei]] = Some(ei);
+        }
+    }
+    let lps = (g.n / 3 + 1).max(2);
+    let outs: Vec<Value> = ents
+        .par_iter()
+        .enumerate()
+        .map(|(ei, e)| {
+            let (Ok(stored), Ok(plain)) = (&written[ent_w[ei]], &written[ent_p[ei]]) else {
+                return json!(["werr"]);
+            };
+            let wi = ent_w[ei];
+            let ro = if owner[wi] == Some(ei) {
+                if wfmt(e.w) == Fmt::Cloud {
+                    read_rows(e.r, &Loc::Cloud(&stores[wi], &e.rname), false, lps)
+                } else {
+                    read_rows(e.r, &Loc::File(&dirs[wi].join(&e.rname)), false, lps)
+                }
+            } else if wfmt(e.w) == Fmt::Cloud {
+                let st = FakeObjectIO::new();
+                st.put_object(BUCKET, &e.rname, stored).unwrap();
+                read_rows(e.r, &Loc::Cloud(&st, &e.rname), false, lps)
+            } else {
+                let target = cd.sub(&format!("e{ei}")).join(&e.rname);
+                std::fs::write(&target, stored).expect("copy stored bytes");
+                read_rows(e.r, &Loc::File(&target), false, lps)
+            };
+            let rd = ro_digest(&ro);
+            json!([rd[0].clone(), sig_idx(stored), stored.len(), plain.len(), stored == plain,
+                   head(stored), head(plain), rd])
+        })
+        .collect();
+    json!(["big", outs])
+}
+
+/// kind "rewrite": payload A, then payload B, written to the SAME name in the same directory /
+/// object store; read; compared with what a fresh store gets when only B is written.
+fn run_rewrite(w: i64, r: i64, name: &str, ga: &Gen, gb: &Gen, shards: Option<usize>) -> Value {
+    let (ra, rb) = (ga.rows(), gb.rows());
+    let cd = CaseDir::new();
+    let (st, st2) = (FakeObjectIO::new(), FakeObjectIO::new());
+    let cloud = wfmt(w) == Fmt::Cloud;
+    let target = cd.sub("t").join(if cloud { "unused" } else { name });
+    let fresh = cd.sub("f").join(if cloud { "unused" } else { name });
+    let loc = if cloud { Loc::Cloud(&st, name) } else { Loc::File(&target) };
+    let loc2 = if cloud { Loc::Cloud(&st2, name) } else { Loc::File(&fresh) };
+    let Ok(s1) = do_write(w, &loc, &ra, shards) else { return json!(["werr"]) };
+    let Ok(s2) = do_write(w, &loc, &rb, shards) else { return json!(["werr"]) };
+    let Ok(sf) = do_write(w, &loc2, &rb, shards) else { return json!(["werr"]) };
+    let lps = (gb.n / 3 + 1).max(2);
+    let rd = ro_digest(&read_rows(r, &loc, false, lps));
+    json!([rd[0].clone(), sig_idx(&s2), s1.len(), s2.len(), sf.len(), s2 == sf, head(&s2), rd])
 }
 
 fn name_of(v: &Value) -> String {
@@ -484,6 +725,33 @@ fn run(kind: &str, input: &Value) -> Value {
                 let ro = do_read(r, &Loc::File(&target), hdr);
                 json!([ro[0].clone(), head(&content), ro, reference])
             }
+        }
+        "big" => {
+            let (Some(g), Some(entries)) = (Gen::of(&input[0]), input[1].as_array()) else {
+                return json!(["invalid"]);
+            };
+            if input.as_array().map(Vec::len) != Some(2) {
+                return json!(["invalid"]);
+            }
+            run_big(&g, entries)
+        }
+        "rewrite" => {
+            let a = input.as_array().cloned().unwrap_or_default();
+            if a.len() != 6 {
+                return json!(["invalid"]);
+            }
+            let (Some(w), Some(r), Some(name), Some(ga), Some(gb)) =
+                (a[0].as_i64(), a[1].as_i64(), a[2].as_str(), Gen::of(&a[3]), Gen::of(&a[4]))
+            else {
+                return json!(["invalid"]);
+            };
+            if !(0..=10).contains(&w) || !(0..=14).contains(&r) || wfmt(w) != rfmt(r)
+                || name.is_empty() || (wfmt(w) != Fmt::Cloud && name.contains('/'))
+                || !(a[5].is_null() || a[5].is_u64())
+            {
+                return json!(["invalid"]);
+            }
+            run_rewrite(w, r, name, &ga, &gb, shards_of(&a[5]))
         }
         "proc" => {
             // the registry must stay untouched in THIS process: never register here
